@@ -110,4 +110,33 @@ def step (s : Sys) : Op → Sys
 
 def run (s : Sys) (ops : List Op) : Sys := ops.foldl step s
 
+/-! ### F5: the window between the driver's acknowledgement and the detector's removal of the tracked range
+
+`detectReorgInTrackedList` notifies the subscriber, waits for its acknowledgement (the driver has rewound its store and
+resumes at once) and only THEN removes the tracked headers `[from, to]` (`to` = the highest tracked number when the pass
+took its snapshot). The sequential model above performs the two halves as one step; here they are separate, so that driver
+steps can fall in between. -/
+
+/-- first half: up to and including the notification and the driver's rewind; returns the range still to be removed -/
+def detectNotifyLoop (chain : List Nat) (fin : Nat) (to : Nat) : List Blk → Sub → Sub × Option (Nat × Nat)
+  | [], s => (s, none)
+  | t :: rest, s =>
+    match canon chain t.1 with
+    | none => (s, none)
+    | some v =>
+      if v = t.2 then
+        let s := if t.1 ≤ fin then { s with tracked := s.tracked.filter (fun x => decide (x.1 ≠ t.1)) } else s
+        detectNotifyLoop chain fin to rest s
+      else
+        ({ s with store := s.store.filter (fun x => decide (x.1 < t.1)) }, some (t.1, to))
+
+def detectNotify (chain : List Nat) (fin : Nat) (s : Sub) : Sub × Option (Nat × Nat) :=
+  detectNotifyLoop chain fin (lastNum s.tracked) s.tracked s
+
+/-- second half: `removeTrackedBlockRange(from, to)` + `hdrs.removeRange(from, to)` -/
+def detectFinish (s : Sub) : Option (Nat × Nat) → Sub
+  | none => s
+  | some (f, t) => { s with tracked := s.tracked.filter (fun x => decide (x.1 < f ∨ t < x.1)) }
+
+
 end Aggkit.ReorgSync
